@@ -7,4 +7,5 @@ CONSTANTS
   Caps = {0, 1, 2, 3}
   FieldTypes = {"int", "str", "optint"}
   Catalogue = "small"
+  Pols = {"skip", "throw"}
 INVARIANTS Check
